@@ -775,7 +775,11 @@ pub fn c03_threads(cfg: C03Cfg, bound: u32) -> ThHarness {
                     }
                     if blocked_for_slot {
                         // Queue-full case: a complete Ring::poll that returned with room must have woken it.
-                        if complete_polls_after.iter().any(|e| e.contains(":room:")) {
+                        // With several waiters the freed slots are rationed: a slot that went to another
+                        // waiter (who has filled it again) is not owed to this one. The demand stands when,
+                        // at the end, there is room and this task still waits.
+                        let room_now = simk::with(|k| k.rings[0].sq_pending() < k.rings[0].sq_entries);
+                        if complete_polls_after.iter().any(|e| e.contains(":room:")) && (room_now || cfg.tasks == 1) {
                             v.push(Violation::new("C03", "lost-wakeup/queue-space", &format!("{msg}: it waits for a submission slot, a later Ring::poll call ran to completion and returned with room in the queue, but the waker was never invoked; events {:?}", s.events)));
                         }
                     } else {
